@@ -311,6 +311,7 @@ def _run_stream_init_sync(
                 app._token_key,
                 auth,
                 stream_id,
+                method_name=method_name,
             )
             # Warm the cache with the objects we already hold, so this stream's
             # first continuation does not have to open the token it was just
@@ -320,6 +321,7 @@ def _run_stream_init_sync(
                 auth,
                 _ResolvedCall(result.call_state, result.output_schema, result.input_schema, stream_id),
                 time.time(),
+                method_name,
             )
 
             if result.input_schema == _EMPTY_SCHEMA:
@@ -531,7 +533,7 @@ def _run_stream_exchange_sync(
             resolved_call,
             call_id,
             request_state_bytes,
-        ) = _unpack_and_recover_state(app, token, call_token, state_info, auth)
+        ) = _unpack_and_recover_state(app, token, call_token, state_info, auth, method_name)
         output_schema = resolved_call.output_schema
         input_schema = resolved_call.input_schema
         stream_id = resolved_call.stream_id
@@ -1141,6 +1143,7 @@ def _unpack_and_recover_state(
     call_token: bytes | None,
     state_info: _StateInfo,
     auth: AuthContext | None,
+    method_name: str,
 ) -> tuple[StreamState, _ResolvedCall, bytes, bytes]:
     """Open a cursor token, resolve its call, and rebuild the state object.
 
@@ -1169,6 +1172,10 @@ def _unpack_and_recover_state(
             concrete class is resolved from the numeric tag embedded in
             ``state_bytes``.
         auth: Authenticated identity for the current request.
+        method_name: The stream method whose ``/exchange`` endpoint received
+            the request.  The call is resolved for this method only: the
+            cache is keyed by it and the call token's AAD binds it, so tokens
+            minted by another method's ``/init`` are rejected.
 
     Returns:
         ``(state_object, resolved_call, call_id, state_bytes)``.
@@ -1188,10 +1195,10 @@ def _unpack_and_recover_state(
     state_bytes, call_id = _open_cursor_token(token, app._token_key, _compute_aad(auth), app._token_ttl)
 
     now = time.time()
-    resolved = app._call_state_cache.get(call_id, auth, now)
+    resolved = app._call_state_cache.get(call_id, auth, now, method_name)
     if resolved is None:
-        resolved = _resolve_call_from_token(app, call_token, call_id, state_info, auth)
-        app._call_state_cache.put(call_id, auth, resolved, now)
+        resolved = _resolve_call_from_token(app, call_token, call_id, state_info, auth, method_name)
+        app._call_state_cache.put(call_id, auth, resolved, now, method_name)
 
     if resolved.stream_id:
         _current_stream_id.set(resolved.stream_id)
@@ -1231,6 +1238,7 @@ def _resolve_call_from_token(
     expected_call_id: bytes,
     state_info: _StateInfo,
     auth: AuthContext | None,
+    method_name: str,
 ) -> _ResolvedCall:
     """Open a client-supplied call token — the cache-miss path.
 
@@ -1241,6 +1249,7 @@ def _resolve_call_from_token(
         state_info: The method's state class (or union tuple), which
             declares the call-state type to deserialize into.
         auth: Authenticated identity for the current request.
+        method_name: The stream method the call token must have been minted for.
 
     Returns:
         The parsed :class:`_ResolvedCall`.
@@ -1264,7 +1273,7 @@ def _resolve_call_from_token(
         input_schema_bytes,
         token_call_id,
         stream_id,
-    ) = _open_call_token(call_token, app._token_key, _compute_call_aad(auth), app._token_ttl)
+    ) = _open_call_token(call_token, app._token_key, _compute_call_aad(auth, method_name), app._token_ttl)
     # Constant-time compare: the ids are both server-minted and already
     # authenticated, so this is belt-and-braces against a client pairing two
     # of its own tokens from different streams.
